@@ -197,7 +197,8 @@ def check_triple(ctx, case):
     else:
         cc = 1 if c is None else c
         try:
-            node = U.make_term(cc, v, e)
+            # an absent coefficient is passed as absent (the default must behave as 1)
+            node = U.make_term(variable=v, exponent=e) if c is None else U.make_term(cc, v, e)
         except Exception as ex:
             return ctx.fail(("make_term-raised",) + E.exc_site(ex), case, {"error": repr(ex)[:200]})
         ctx.count("construct:checks")
